@@ -202,6 +202,8 @@ from . import seqs
 A_MODELP = "overlay (cache variant): the three storage functions of stream.rs divert to a flat byte-array model (their contract; the real functions are checked against it by the stor_* harnesses) while the harness has switched it on - under Kani and in native playback alike"
 _cq = set(seqs.quick())
 for c in seqs.cases():
+    if c.get("fault"):
+        continue
     harness(c["name"], props=["C06", "C18", "C02", "C13", "C10"], tier=("quick" if c["name"] in _cq else "thorough"), timeout=1800, mem=5,
             variant="buf8", stubs=[FMT, "Stream :: minialloc"],
             what="call sequence %s on a handle over a 12-byte stream with symbolic content and symbolic written data, compared after every call with a byte vector + cursor (result, bytes, position, len()); final flush leaves exactly the model bytes in storage and flushes the file" % [seqs.NAMES[o] for o in c["ops"]],
@@ -211,21 +213,25 @@ for c in seqs.cases():
 # ---------------------------------------------------------------- lock discipline (variant lock)
 A_LOCK = "overlay: std::sync::RwLock replaced by an instrumented single-threaded lock that asserts no guard is live on acquisition and lets try_read/try_write fail nondeterministically; thread schedules are NOT explored"
 for n in ["c14_lookups", "c14_iter_root", "c14_iter_walk", "c14_iter_storage", "c14_stream_ops"]:
-    harness(n, props=["C14"], timeout=3000, mem=10, variant="lock", fs=8192, stubs=[FMT, STUB_UP],
+    harness(n, props=["C14"], timeout=3000, mem=10, variant=("buf8" if n == "c14_stream_ops" else "lock"), fs=8192, stubs=[FMT, STUB_UP],
             what="every read-only method, every iterator step (with read-only calls interleaved while the iterator is alive) and every stream operation acquires the lock only while no guard is live and releases it before returning",
             bounds="3-entry file; one call sequence; symbolic contents/metadata", functions=["CompoundFile::*(read-only)", "Entries::next", "Entries::new", "Stream::*"],
             assumes=[A_LOCK, A_SHAPE, A_UPTABLE])
 
 # ---------------------------------------------------------------- faults (C12 / C13)
 A_FAULT = "environment: FaultAt backend - exactly the at-th read/seek (C12) or write/seek/flush (C13) call of the armed phase fails; at is concrete per instance (the position k of the property's quantifier is enumerated by instances)"
-for (n, tier) in [("c12_read_fault_at0", "quick"), ("c12_read_fault_at1", "quick"), ("c12_read_fault_at2", "quick"), ("c12_read_fault_at3", "thorough"), ("c12_read_fault_at5", "thorough")]:
-    harness(n, props=["C12"], tier=tier, timeout=5400, mem=10, variant="buf8", fs=4096, stubs=[FMT, "Stream :: minialloc"],
-            what="second buffered read of a 100-byte stream (real storage layers) with the k-th underlying read/seek call of the refill failing: an Ok result equals the true content; after Err the position is unchanged and the retry returns the true content",
-            bounds="8-byte window (scaled); one fault at call index k of the refill; stream content symbolic", functions=CACHE_F + STOR_F, assumes=[A_FAULT, A_BUF8, A_UPG, A_SHAPE])
-for (n, tier) in [("c13_flush_fault_at0", "quick"), ("c13_flush_fault_at1", "quick"), ("c13_flush_fault_at2", "thorough"), ("c13_flush_fault_at4", "quick"), ("c13_flush_fault_at7", "thorough"), ("c13_flush_fault_at10", "thorough")]:
-    harness(n, props=["C13"], tier=tier, timeout=5400, mem=10, variant="buf8", fs=4096, stubs=[FMT, STUB_COPY, "Stream :: minialloc"],
-            what="buffered 6-byte write then flush (real storage layers) with the k-th underlying write/seek/flush call failing: the fault surfaces as Err; a later flush that returns Ok means a fresh handle reads the bytes back",
-            bounds="one fault at call index k of the write-back; written bytes symbolic", functions=CACHE_F + STOR_F, assumes=[A_FAULT, A_BUF8, A_UPG, A_SHAPE])
+for (n, tier) in [("stor_read_fault_seek0", "quick"), ("stor_read_fault_seek1", "quick"), ("stor_read_fault_seek2", "thorough"),
+                  ("stor_read_fault_read0", "quick"), ("stor_read_fault_read1", "thorough")]:
+    harness(n, props=["C12"], tier=tier, timeout=5400, mem=10, stubs=[FMT],
+            what="read_data_from_stream (real mini chain / chain / sector layers) across a mini sector boundary of a fragmented chain with the k-th underlying seek (or read) call failing: Err, or exactly the stream's bytes; image, file length and caches unmodified",
+            bounds="one fault at call index k; stream content symbolic", functions=STOR_F, assumes=[A_FAULT, A_SHAPE])
+for c in seqs.cases():
+    if c.get("fault"):
+        harness(c["name"], props=["C12"] if "c12" in c["name"] else ["C13"], tier=("quick" if c["name"].endswith("_min") else "thorough"), timeout=1800, mem=5,
+                variant="buf8", stubs=[FMT, "Stream :: minialloc"],
+                what="handle-level fault scenario %s: a one-shot failure of the next storage read (C12) / write-back (C13) is armed (ARMR/ARMW); the failing call returns Err and leaves the position; retries return the true bytes; a flush that returns Ok after a failed one leaves exactly the written bytes in storage" % [seqs.NAMES[o] for o in c["ops"]],
+                bounds="concrete call sequence, symbolic data; fault at the storage-model boundary (lower layers: stor_read_fault_*, c13_free_fault_*)",
+                functions=CACHE_F, assumes=[A_MODELP, A_BUF8, A_UPG])
 for (n, tier) in [("c13_free_fault_at0", "quick"), ("c13_free_fault_at1", "quick"), ("c13_free_fault_at2", "thorough"), ("c13_free_fault_at3", "quick"), ("c13_free_fault_at5", "thorough")]:
     harness(n, props=["C13"], tier=tier, timeout=1800, mem=6, stubs=[FMT],
             what="free_chain of a 3-sector chain with the k-th write/seek call failing, then a retry: the fault surfaces, nothing panics, no sector is on the free list twice and every listed sector is FREE",
@@ -349,8 +355,8 @@ QUICK.update({
             "api_ref_remove_stream_on_storage", "api_ref_storage_on_stream", "api_ref_escape_root", "api_ref_clsid_on_stream",
             "cache_c_refused_seeks_change_nothing_min"],
     "C11": ["alloc_next_total", "chain_new_total"],
-    "C12": ["c12_read_fault_at0", "c12_read_fault_at1", "c12_read_fault_at2", "stor_read_cross"],
-    "C13": ["c13_flush_fault_at0", "c13_flush_fault_at1", "c13_flush_fault_at4", "c13_free_fault_at0", "c13_free_fault_at1", "c13_free_fault_at3", "cache_c_write_flush_write_read_min"],
+    "C12": ["stor_read_fault_seek0", "stor_read_fault_seek1", "stor_read_fault_read0", "stor_read_cross"] + [n for n in seqs.quick_faults() if "c12" in n],
+    "C13": ["c13_free_fault_at0", "c13_free_fault_at1", "c13_free_fault_at3", "cache_c_write_flush_write_read_min"] + [n for n in seqs.quick_faults() if "c13" in n],
     "C14": ["c14_lookups", "c14_iter_root", "c14_iter_walk", "c14_iter_storage", "c14_stream_ops"],
     "C15": ["alloc_begin_free13", "alloc_extend_free3", "alloc_free_chain3", "alloc_free_after3", "mini_begin_reuse",
             "mini_begin_after_empty", "mini_free_tail2", "mini_free_all", "dir_ins_n3_s0_g1", "big_4096_to_100"],
